@@ -214,6 +214,9 @@ func (r *rRun) run(c c17RCase) {
 						break
 					}
 				}
+				// a replica whose epoch ended in a rejected call cannot be read any more: Reset winds its pipeline down
+				// (without this the replica's own goroutines were reported as the tested object's leak: DESIGN.md section 11)
+				frd.Reset(bytes.NewReader(nil))
 			}
 			same := fres.N == res.N && fres.Err == res.Err && bytes.Equal(fres.Bytes, res.Bytes) && fres.Size == res.Size
 			if conc == 1 && fres.Consumed != res.Consumed {
